@@ -202,7 +202,9 @@ status_t ReaderWriterMutex :: LockReadWriteAux(uint64 optTimeoutTimestamp) const
 #ifdef MUSCLE_VERIF_HOOKS
             MUSCLE_VERIF_POINT(MVH_RW_WRITER_TIMEDOUT, this, 0);
 #endif
-            MaybeNotifySomeWaitingThreads();  // avoid a potential stall after a B_TIMED_OUT
+            // Readers that parked only because we were waiting (writers-preferred mode) can go now, even if other readers are still executing
+            if ((_waitingReaderThreads.HasItems())&&(IsOkayForReaderThreadsToExecuteNow())) (void) NotifyAllReaderThreads();
+                                                                                      else MaybeNotifySomeWaitingThreads();  // avoid a potential stall after a B_TIMED_OUT
             return ret;
          }
          else if (IsOkayForWriterThreadToExecuteNow(tid))
